@@ -41,7 +41,10 @@ const c11DegradedWatchdog = 10 * time.Second
 
 func c11ReadFrame(conn net.Conn) ([]byte, error) {
 	var l [4]byte
-	if _, err := io.ReadFull(conn, l[:]); err != nil {
+	if k, err := io.ReadFull(conn, l[:]); err != nil {
+		if k > 0 {
+			return nil, fmt.Errorf("reply frame cut short: %d of 4 length-prefix bytes received: %w", k, err)
+		}
 		return nil, err
 	}
 	n := int32(binary.BigEndian.Uint32(l[:]))
@@ -49,10 +52,36 @@ func c11ReadFrame(conn net.Conn) ([]byte, error) {
 		return nil, fmt.Errorf("reply frame announces %d bytes", n)
 	}
 	b := make([]byte, n)
-	if _, err := io.ReadFull(conn, b); err != nil {
-		return nil, fmt.Errorf("reply frame cut short: %w", err)
+	if k, err := io.ReadFull(conn, b); err != nil {
+		return nil, fmt.Errorf("reply frame cut short: announces %d bytes, %d received: %w", n, k, err)
 	}
 	return b, nil
+}
+
+// c11ReadFrameExpect reads the next frame, which must be the reply carrying correlation id corr. It looks at the
+// first 8 bytes (length prefix + correlation id) before it trusts the announced length: when they are not the start
+// of that reply, the stream is misframed (bytes of another frame, a shifted frame) and waiting for "the rest" would
+// only wait for the watchdog. misframed != "" describes what was seen; it is an observation about bytes that did
+// arrive, no timing involved.
+func c11ReadFrameExpect(conn net.Conn, corr int32) (frame []byte, misframed string, err error) {
+	var h [8]byte
+	if k, err := io.ReadFull(conn, h[:]); err != nil {
+		if k > 0 {
+			return nil, "", fmt.Errorf("reply frame cut short: %d of the first 8 bytes received (%x): %w", k, h[:k], err)
+		}
+		return nil, "", err
+	}
+	n := int32(binary.BigEndian.Uint32(h[:4]))
+	got := int32(binary.BigEndian.Uint32(h[4:]))
+	if got != corr || n < 4 || n > 64<<20 {
+		return nil, fmt.Sprintf("the next bytes on the connection are %x (a frame announcing %d bytes with correlation id %d) where the reply with correlation id %d was due", h[:], n, got, corr), nil
+	}
+	b := make([]byte, n)
+	copy(b, h[4:])
+	if k, err := io.ReadFull(conn, b[4:]); err != nil {
+		return nil, "", fmt.Errorf("reply frame cut short: announces %d bytes, %d received: %w", n, 4+k, err)
+	}
+	return b, "", nil
 }
 
 func c11IsTimeout(err error) bool {
@@ -68,6 +97,14 @@ type c11Exchange struct {
 	watchdog   bool   // read deadline fired: decides nothing
 	err        string
 	connBroken bool // do not reuse the connection
+	// afterReply: the reply arrived complete, but the bytes that followed it on the connection were not the reply to
+	// the pipelined sentinel (description of what was seen). Empty when the sentinel's reply followed intact, or when
+	// nothing followed (closed / watchdog: decides nothing).
+	afterReply string
+	// watchdogTwice: no complete reply within the watchdog on the first connection (still open) and again when the same
+	// request was sent alone on a fresh connection (still open); firstErr is what the first attempt saw.
+	watchdogTwice bool
+	firstErr      string
 }
 
 type c11Client struct {
@@ -164,9 +201,11 @@ func (c *c11Client) do(wire []byte, pipelineSentinel bool) c11Exchange {
 	if !pipelineSentinel {
 		return ex
 	}
-	// drain the sentinel's reply so that the connection can be reused
-	second, err := c11ReadFrame(conn)
-	if err != nil || len(second) < 4 || int32(binary.BigEndian.Uint32(second)) != sentCorr {
+	// the sentinel's reply must follow; only then can the connection be reused
+	_, mis, err := c11ReadFrameExpect(conn, sentCorr)
+	if mis != "" {
+		ex.connBroken, ex.afterReply = true, mis
+	} else if err != nil {
 		ex.connBroken = true
 	}
 	return ex
@@ -271,6 +310,53 @@ func c11Hex(b []byte) string {
 }
 
 // c11Judge applies the property to one exchange. Returns the decoded response when the reply was well-formed.
+// c11Violations counts the violations reported through c11Viol (the legs drive one connection at a time), so that a
+// caller can tell whether judging an exchange found something.
+var c11Violations int
+
+func c11Viol(r *verifkit.Run, class, summary string, replay any) {
+	c11Violations++
+	r.Violation(class, summary, replay)
+}
+
+// c11Reask is the second half of the lost-reply rule. ex ended in the watchdog: the connection was still open and
+// neither the reply nor the sentinel's reply arrived completely. A slow box could do that, so the same request is
+// sent once more, alone, on a fresh connection with the same generous watchdog. A complete reply there is judged
+// like any other (the first attempt then decided nothing); a second watchdog on an open connection makes the loss
+// attributable to this request ("a request at that version gets a reply" is violated).
+func c11Reask(r *verifkit.Run, addr string, wire []byte, ex c11Exchange) c11Exchange {
+	r.Count("watchdog_reasked_alone", 1)
+	cl := &c11Client{addr: addr, watchdog: c11Watchdog}
+	defer cl.close()
+	ex2 := cl.do(wire, false)
+	switch {
+	case ex2.reply != nil:
+		r.Count("watchdog_reask_got_reply", 1)
+	case ex2.watchdog && !strings.HasPrefix(ex2.err, "dial:"):
+		ex2.watchdogTwice, ex2.firstErr = true, ex.err
+	}
+	return ex2
+}
+
+// c11JudgeFollowing handles "the reply is fine but what follows it on the connection is not the next reply": the
+// request was followed by an ApiVersions v0 request (the sentinel), whose reply must come next. Bytes that are not
+// that reply mean the server wrote fewer/more bytes for the first reply than its frame announced, or garbled the
+// second; either way the ApiVersions v0 request did not get its reply. A control (the same sentinel alone on a
+// fresh connection is answered intact) pins it on the preceding reply.
+func c11JudgeFollowing(r *verifkit.Run, addr string, cs c11Case, ex c11Exchange) {
+	ctl := &c11Client{addr: addr, watchdog: c11Watchdog}
+	defer ctl.close()
+	sf, corr := ctl.sentinelFrame()
+	cx := ctl.do(sf, false)
+	if cx.reply == nil || len(cx.reply) < 4 || int32(binary.BigEndian.Uint32(cx.reply)) != corr {
+		r.Inconclusive(fmt.Sprintf("%s %s v%d: %s - but the ApiVersions v0 sentinel alone on a fresh connection is not answered either (%s), so this is not attributed", cs.Target, cs.API, cs.Version, ex.afterReply, cx.err))
+		return
+	}
+	cs.ReplyHex = c11Hex(ex.reply)
+	cs.Detail = fmt.Sprintf("the %d-byte reply is complete and decodes, but %s; the same ApiVersions v0 request alone on a fresh connection is answered intact", len(ex.reply), ex.afterReply)
+	c11Viol(r, "reply_breaks_framing_of_next_reply:"+cs.API, fmt.Sprintf("%s: after the %d-byte reply to %s v%d the reply to the next request on the connection (ApiVersions v0) does not arrive as a frame: %s", cs.Target, len(ex.reply), cs.API, cs.Version, ex.afterReply), cs)
+}
+
 func c11Judge(r *verifkit.Run, cs c11Case, ex c11Exchange) kmsg.Response {
 	api := cs.API
 	adv := "advertised"
@@ -280,6 +366,11 @@ func c11Judge(r *verifkit.Run, cs c11Case, ex c11Exchange) kmsg.Response {
 	if ex.watchdog {
 		if cs.NoReplyOK {
 			r.Count("no_reply_within_watchdog_in_degraded_config", 1)
+			return nil
+		}
+		if ex.watchdogTwice && cs.Advertised && !cs.Acks0 {
+			cs.Detail = fmt.Sprintf("no complete reply within the %s watchdog although the connection stayed open, neither with the sentinel pipelined behind the request (%s) nor when the same request was sent alone on a fresh connection (%s)", c11Watchdog, ex.firstErr, ex.err)
+			c11Viol(r, "advertised_version_not_served:"+api, fmt.Sprintf("%s: %s v%d is advertised but no complete reply arrives (twice: pipelined and alone on a fresh connection; connection open, %s)", cs.Target, api, cs.Version, ex.err), cs)
 			return nil
 		}
 		r.Inconclusive(fmt.Sprintf("%s %s v%d: watchdog (%s)", cs.Target, api, cs.Version, ex.err))
@@ -299,10 +390,10 @@ func c11Judge(r *verifkit.Run, cs c11Case, ex c11Exchange) kmsg.Response {
 			}
 		case ex.closed:
 			cs.Detail = "connection closed without a reply: " + ex.err
-			r.Violation("advertised_version_not_served:"+api, fmt.Sprintf("%s: %s v%d is advertised but the connection was closed without a reply", cs.Target, api, cs.Version), cs)
+			c11Viol(r, "advertised_version_not_served:"+api, fmt.Sprintf("%s: %s v%d is advertised but the connection was closed without a reply", cs.Target, api, cs.Version), cs)
 		default:
 			cs.Detail = "server skipped the request and answered the next one"
-			r.Violation("advertised_version_not_served:"+api, fmt.Sprintf("%s: %s v%d is advertised but got no reply (the next request on the connection was answered instead)", cs.Target, api, cs.Version), cs)
+			c11Viol(r, "advertised_version_not_served:"+api, fmt.Sprintf("%s: %s v%d is advertised but got no reply (the next request on the connection was answered instead)", cs.Target, api, cs.Version), cs)
 		}
 		return nil
 	}
@@ -312,13 +403,13 @@ func c11Judge(r *verifkit.Run, cs c11Case, ex c11Exchange) kmsg.Response {
 		r.Count("acks0_got_reply", 1)
 	}
 	if len(ex.reply) < 4 {
-		r.Violation("reply_shorter_than_header:"+api, fmt.Sprintf("%s: %s v%d reply frame has %d bytes", cs.Target, api, cs.Version, len(ex.reply)), cs)
+		c11Viol(r, "reply_shorter_than_header:"+api, fmt.Sprintf("%s: %s v%d reply frame has %d bytes", cs.Target, api, cs.Version, len(ex.reply)), cs)
 		return nil
 	}
 	if got := int32(binary.BigEndian.Uint32(ex.reply)); got != cs.Corr {
 		if cs.Advertised {
 			cs.Detail = fmt.Sprintf("reply carries correlation id %d", got)
-			r.Violation("correlation_id_mismatch:"+api, fmt.Sprintf("%s: %s v%d reply has correlation id %d, request had %d", cs.Target, api, cs.Version, got, cs.Corr), cs)
+			c11Viol(r, "correlation_id_mismatch:"+api, fmt.Sprintf("%s: %s v%d reply has correlation id %d, request had %d", cs.Target, api, cs.Version, got, cs.Corr), cs)
 		} else {
 			r.Count("unadvertised_correlation_id_mismatch", 1)
 		}
@@ -375,17 +466,17 @@ func c11Judge(r *verifkit.Run, cs c11Case, ex c11Exchange) kmsg.Response {
 				want, got = "with", "without"
 			}
 			cs.Detail = fmt.Sprintf("body decodes only when the header is read %s a tagged-field section; the version requires it %s", got, want)
-			r.Violation("response_header_shape:"+api, fmt.Sprintf("%s: %s v%d reply has the wrong response-header shape (%s)", cs.Target, api, cs.Version, adv), cs)
+			c11Viol(r, "response_header_shape:"+api, fmt.Sprintf("%s: %s v%d reply has the wrong response-header shape (%s)", cs.Target, api, cs.Version, adv), cs)
 			return nil
 		}
 	}
 	if derr != nil {
 		cs.Detail = "codec error: " + derr.Error()
-		r.Violation("reply_undecodable:"+api, fmt.Sprintf("%s: %s v%d (%s) reply cannot be decoded at v%d: %v", cs.Target, api, cs.Version, adv, cs.Version, derr), cs)
+		c11Viol(r, "reply_undecodable:"+api, fmt.Sprintf("%s: %s v%d (%s) reply cannot be decoded at v%d: %v", cs.Target, api, cs.Version, adv, cs.Version, derr), cs)
 		return nil
 	}
 	cs.Detail = "codec decodes the body but its re-encoding at the same version differs (bytes left over or fields of another version)"
-	r.Violation("reply_not_in_requested_version:"+api, fmt.Sprintf("%s: %s v%d (%s) reply decodes but is not a v%d encoding (re-encoding differs)", cs.Target, api, cs.Version, adv, cs.Version), cs)
+	c11Viol(r, "reply_not_in_requested_version:"+api, fmt.Sprintf("%s: %s v%d (%s) reply decodes but is not a v%d encoding (re-encoding differs)", cs.Target, api, cs.Version, adv, cs.Version), cs)
 	return nil
 }
 
@@ -783,7 +874,14 @@ func c11RunMatrix(r *verifkit.Run, m c11Matrix) {
 			ex = cl.do(wire, false)
 			cl.close()
 		}
+		if ex.watchdog && advertised && !cs.Acks0 && requireReply {
+			cl.close()
+			ex = c11Reask(r, addr, wire, ex)
+		}
 		resp := c11Judge(r, cs, ex)
+		if resp != nil && ex.afterReply != "" && advertised && !cs.Acks0 && requireReply {
+			c11JudgeFollowing(r, addr, cs, ex)
+		}
 		if resp != nil {
 			world.learn(req, resp)
 			for _, c := range c11Content(resp) {
@@ -876,4 +974,360 @@ func c11RunMatrix(r *verifkit.Run, m c11Matrix) {
 		}
 	}
 	r.Count(target+"_connections", int64(cl.dials))
+}
+
+// ---------------------------------------------------------------------------
+// reply-size sweep
+// ---------------------------------------------------------------------------
+//
+// The matrix above reaches whatever reply sizes the generated bodies happen to produce (mostly < 300 bytes). A
+// server's reply path may depend on the size (coalescing buffers, pooled buffers, chunked writes), so this pass makes
+// the reply SIZE the swept variable: advertised requests whose reply echoes a client-chosen string are sent with
+// every string length in a contiguous range and in windows around the powers of two, several requests pipelined per
+// connection. The oracle is unchanged (c11Judge per reply, plus: the next reply must follow as a frame).
+
+type c11Echo struct {
+	name     string
+	key, ver int16
+	flexible bool // compact strings: the echoed string may exceed 32767 bytes
+	build    func(s string) kmsg.Request
+}
+
+func c11EchoTemplates() []c11Echo {
+	describeGroups := func(s string) kmsg.Request {
+		q := kmsg.NewPtrDescribeGroupsRequest()
+		q.Groups = []string{s}
+		return q
+	}
+	deleteGroups := func(s string) kmsg.Request {
+		q := kmsg.NewPtrDeleteGroupsRequest()
+		q.Groups = []string{s}
+		return q
+	}
+	metadataReq := func(s string) kmsg.Request {
+		q := kmsg.NewPtrMetadataRequest()
+		t := kmsg.NewMetadataRequestTopic()
+		t.Topic = kmsg.StringPtr(s)
+		q.Topics = []kmsg.MetadataRequestTopic{t}
+		return q
+	}
+	createTopics := func(s string) kmsg.Request {
+		q := kmsg.NewPtrCreateTopicsRequest()
+		t := kmsg.NewCreateTopicsRequestTopic()
+		t.Topic, t.NumPartitions, t.ReplicationFactor = s, 1, 1
+		q.Topics = []kmsg.CreateTopicsRequestTopic{t}
+		q.TimeoutMillis = 1000
+		return q
+	}
+	offsetFetch := func(s string) kmsg.Request {
+		q := kmsg.NewPtrOffsetFetchRequest()
+		q.Group = "g1"
+		t := kmsg.NewOffsetFetchRequestTopic()
+		t.Topic, t.Partitions = s, []int32{0}
+		q.Topics = []kmsg.OffsetFetchRequestTopic{t}
+		return q
+	}
+	// order matters in the quick tier: only the first few get the contiguous sweep (a flexible one, then a
+	// non-flexible one whose reply size is exactly base + string length, then different reply builders)
+	return []c11Echo{
+		{"DescribeGroups.group", 15, 5, true, describeGroups},
+		{"DeleteGroups.group", 42, 0, false, deleteGroups},
+		{"Metadata.unknown_topic", 3, 9, true, metadataReq},
+		{"CreateTopics.invalid_name", 19, 2, false, createTopics},
+		{"OffsetFetch.topic", 9, 5, false, offsetFetch},
+		{"DeleteGroups.group", 42, 2, true, deleteGroups},
+		{"Metadata.unknown_topic", 3, 1, false, metadataReq},
+		{"Metadata.unknown_topic", 3, 5, false, metadataReq},
+		{"Metadata.unknown_topic", 3, 12, true, metadataReq},
+		{"CreateTopics.invalid_name", 19, 0, false, createTopics},
+	}
+}
+
+// c11EchoString is n bytes long, never a legal topic name (first byte '!': CreateTopics / Metadata auto-create refuse
+// it, so the sweep leaves no topics behind) and different for every (id, n).
+func c11EchoString(id, n int) string {
+	if n <= 0 {
+		return ""
+	}
+	b := make([]byte, 0, n+24)
+	b = append(b, fmt.Sprintf("!%d.%d.", id, n)...)
+	for i := 0; len(b) < n; i++ {
+		b = append(b, "abcdefghijklmnopqrstuvwxyz0123456789"[(i+id)%36])
+	}
+	return string(b[:n])
+}
+
+const c11SweepMaxLost = 2
+
+type c11SweepItem struct {
+	cs   c11Case
+	wire []byte
+	tmpl string
+	n    int
+}
+
+// doBatch writes all requests and a sentinel (from a separate goroutine, so that large replies cannot dead-lock
+// against large requests) and reads the replies in order. Each reply is read with c11ReadFrameExpect: the first
+// frame that does not start like the reply that is due ends the batch (broken=index, why=description); so does a
+// watchdog/close (decides nothing here; the items from that index on are asked again alone).
+func (c *c11Client) doBatch(items []c11SweepItem) (replies [][]byte, broken int, why string, timedOut bool) {
+	broken = -1
+	if err := c.dial(); err != nil {
+		return nil, 0, "dial: " + err.Error(), true
+	}
+	conn := c.conn
+	wd := c.watchdog
+	if wd <= 0 {
+		wd = c11Watchdog
+	}
+	_ = conn.SetDeadline(time.Now().Add(wd))
+	var all []byte
+	for _, it := range items {
+		all = append(all, it.wire...)
+	}
+	sf, sentCorr := c.sentinelFrame()
+	all = append(all, sf...)
+	wdone := make(chan struct{})
+	go func() { _, _ = conn.Write(all); close(wdone) }()
+	defer func() {
+		if broken >= 0 {
+			c.close() // also unblocks the writer
+		}
+		<-wdone
+	}()
+	for i, it := range items {
+		f, mis, err := c11ReadFrameExpect(conn, it.cs.Corr)
+		if mis != "" {
+			return replies, i, mis, false
+		}
+		if err != nil {
+			return replies, i, err.Error(), c11IsTimeout(err)
+		}
+		replies = append(replies, f)
+	}
+	if _, mis, err := c11ReadFrameExpect(conn, sentCorr); mis != "" {
+		return replies, len(items), mis, false
+	} else if err != nil {
+		return replies, len(items), err.Error(), c11IsTimeout(err)
+	}
+	return replies, -1, "", false
+}
+
+// c11RunSweep drives the reply-size sweep against one server. The first `contiguous` advertised templates are sent
+// with every string length 0..1100; full: every advertised template gets the windows around 2^5..2^16, otherwise
+// only the first two templates and windows up to 2^12.
+func c11RunSweep(r *verifkit.Run, m c11Matrix, contiguous int, full bool) {
+	target, addr := m.target, m.addr
+	cl := &c11Client{addr: addr, watchdog: c11Watchdog}
+	defer cl.close()
+	table, _ := c11Advertised(r, target, cl)
+	if table == nil {
+		return
+	}
+	sizes := map[int]bool{} // reply payload sizes (frame length) observed on complete replies
+	// every lost reply costs two watchdogs; after c11SweepMaxLost attributable ones (each reported) the sweep of this
+	// server ends: more witnesses of the same kind would only cost time
+	lost := 0
+	caseNo := m.salt + 900000
+	rng := r.Rand(caseNo)
+	alone := func(it c11SweepItem) (c11Exchange, kmsg.Response) {
+		r.Count("sweep_asked_alone", 1)
+		cl.close()
+		if m.hooks != nil && m.hooks.before != nil {
+			m.hooks.before()
+		}
+		ex := cl.do(it.wire, true)
+		if m.hooks != nil && m.hooks.after != nil {
+			m.hooks.after(it.cs)
+		}
+		if ex.reply == nil && ex.closed {
+			cl.close()
+			ex = cl.do(it.wire, false)
+			cl.close()
+		}
+		if ex.watchdog {
+			cl.close()
+			ex = c11Reask(r, addr, it.wire, ex)
+			if ex.watchdogTwice {
+				lost++
+			}
+		}
+		resp := c11Judge(r, it.cs, ex)
+		if ex.reply != nil {
+			sizes[len(ex.reply)] = true
+		}
+		if resp != nil && ex.afterReply != "" {
+			c11JudgeFollowing(r, addr, it.cs, ex)
+		}
+		r.Case(verifkit.Hash(target, "sweep", it.tmpl, it.cs.Version, it.n), resp != nil)
+		return ex, resp
+	}
+	batch := func(items []c11SweepItem) {
+		if len(items) == 0 || lost >= c11SweepMaxLost {
+			return
+		}
+		r.Count("sweep_batches", 1)
+		r.Count("sweep_requests", int64(len(items)))
+		if m.hooks != nil && m.hooks.before != nil {
+			m.hooks.before()
+		}
+		replies, broken, why, _ := cl.doBatch(items)
+		if m.hooks != nil && m.hooks.after != nil {
+			m.hooks.after(items[0].cs)
+		}
+		before := c11Violations
+		firstBad := -1
+		for i, f := range replies {
+			resp := c11Judge(r, items[i].cs, c11Exchange{reply: f})
+			sizes[len(f)] = true
+			r.Case(verifkit.Hash(target, "sweep", items[i].tmpl, items[i].cs.Version, items[i].n), resp != nil)
+			if resp == nil && firstBad < 0 {
+				firstBad = i
+			}
+		}
+		if broken < 0 {
+			return
+		}
+		// the stream stopped being a sequence of the due replies at item `broken` (== len(items): at the sentinel).
+		// Every request whose reply was not read, and - when nothing read so far was found wrong - every request of
+		// the batch, is asked again alone (request + sentinel on a fresh connection), where a verdict is attributable.
+		r.Count("sweep_batches_broken", 1)
+		from := broken
+		if firstBad < 0 {
+			from = 0
+		}
+		for i := from; i < len(items) && lost < c11SweepMaxLost; i++ {
+			alone(items[i])
+		}
+		if c11Violations == before && !strings.Contains(why, "i/o timeout") {
+			// nothing attributable alone, yet bytes that are not the due reply arrived on the pipelined connection
+			var reqs []string
+			for _, it := range items {
+				reqs = append(reqs, it.cs.RequestHex)
+			}
+			c11Viol(r, "pipelined_replies_misframed:"+items[0].cs.API, fmt.Sprintf("%s: %d %s v%d requests pipelined on one connection: at reply %d %s; each request alone is answered correctly", target, len(items), items[0].cs.API, items[0].cs.Version, broken, why),
+				map[string]any{"target": target, "api": items[0].cs.API, "version": items[0].cs.Version, "requests_hex": reqs, "broken_at_reply": broken, "seen": why})
+		} else if c11Violations == before {
+			r.Inconclusive(fmt.Sprintf("%s sweep %s v%d: pipelined batch ended in the watchdog at reply %d (%s); every request alone was answered", target, items[0].cs.API, items[0].cs.Version, broken, why))
+		}
+	}
+	mk := func(t c11Echo, n int) c11SweepItem {
+		caseNo++
+		req := t.build(c11EchoString(caseNo, n))
+		req.SetVersion(t.ver)
+		corr := int32(0x10000000 + caseNo&0x0fffffff)
+		cid := "verif-c11-sweep"
+		wire := verifkreq.Encode(req, corr, &cid)
+		return c11SweepItem{cs: c11Case{Target: target, API: kmsg.NameForKey(t.key), Key: t.key, Version: t.ver, Advertised: true, Corr: corr, ClientID: cid, RequestHex: c11Hex(wire)}, wire: wire, tmpl: t.name, n: n}
+	}
+	run := func(t c11Echo, lens []int) {
+		for len(lens) > 0 {
+			k := 2 + rng.Intn(7)
+			if k > len(lens) {
+				k = len(lens)
+			}
+			var items []c11SweepItem
+			for _, n := range lens[:k] {
+				items = append(items, mk(t, n))
+			}
+			lens = lens[k:]
+			batch(items)
+		}
+	}
+	const contiguousMax = 1100
+	used := 0
+	anyFlexible, exactContiguous := false, false
+	for _, t := range c11EchoTemplates() {
+		rg, ok := table[t.key]
+		if !ok || rg.min < 0 || t.ver < rg.min || t.ver > rg.max {
+			r.Count("sweep_templates_not_advertised", 1)
+			continue
+		}
+		if !full && used >= 2 {
+			break
+		}
+		used++
+		sweepAll := used <= contiguous
+		r.Seen("sweep_templates", fmt.Sprintf("%s/%s/v%d", target, t.name, t.ver))
+		if lost >= c11SweepMaxLost {
+			break
+		}
+		// calibrate: where does the reply size stand for a string of contiguousMax bytes
+		ex, resp := alone(mk(t, contiguousMax))
+		if resp == nil || ex.reply == nil {
+			continue // judged (or inconclusive) in alone(); without a calibration point the windows cannot be placed
+		}
+		base := len(ex.reply) - contiguousMax
+		if sweepAll {
+			exactContiguous = exactContiguous || !t.flexible
+			var lens []int
+			for n := 0; n <= contiguousMax; n++ {
+				lens = append(lens, n)
+			}
+			run(t, lens)
+		}
+		// windows around 2^k: string lengths placed so that the reply lands on 2^k-8 .. 2^k+8 (compact-string length
+		// prefixes grow by up to 2 bytes on the way, hence the margin)
+		maxK := 16
+		if !full {
+			maxK = 12
+		}
+		minK := 5
+		if !sweepAll {
+			minK = r.N(9, 5) // quick: the small sizes are left to the templates that get every length
+		}
+		for k := minK; k <= maxK; k++ {
+			var lens []int
+			for d := -10; d <= 8; d++ {
+				n := 1<<k + d - base
+				if n < 0 || (!t.flexible && n > 32767) || (n <= contiguousMax && sweepAll) {
+					continue
+				}
+				lens = append(lens, n)
+			}
+			if len(lens) > 0 && t.flexible && k == 16 {
+				anyFlexible = true
+			}
+			run(t, lens)
+		}
+	}
+	// what the sweep reached
+	lo, hi := 1<<30, 0
+	for sz := range sizes {
+		r.Seen("sweep_reply_sizes", fmt.Sprintf("%s/%d", target, sz))
+		if sz < lo {
+			lo = sz
+		}
+		if sz > hi {
+			hi = sz
+		}
+	}
+	var gaps []string
+	need := func(a, b int) {
+		for sz := a; sz <= b; sz++ {
+			if !sizes[sz] && len(gaps) < 12 {
+				gaps = append(gaps, fmt.Sprint(sz))
+			}
+		}
+	}
+	if exactContiguous {
+		need(32, contiguousMax)
+	}
+	topK := 12
+	if full {
+		topK = 15
+		if anyFlexible {
+			topK = 16
+		}
+	}
+	for k := 11; k <= topK; k++ {
+		need(1<<k-4, 1<<k+4)
+	}
+	r.Note(target+"_sweep_reply_size_range", fmt.Sprintf("%d..%d bytes, %d distinct sizes, every size 32..%d demanded: %v, windows 2^k±4 up to 2^%d", lo, hi, len(sizes), contiguousMax, exactContiguous, topK))
+	if lost >= c11SweepMaxLost {
+		r.Note(target+"_sweep_cut_short", fmt.Sprintf("ended after %d replies were lost twice (each reported)", lost))
+	}
+	if len(gaps) > 0 && !r.Violated() {
+		r.Inconclusive(fmt.Sprintf("%s: the reply-size sweep did not reach reply sizes %s (the echoing templates behave differently than assumed)", target, strings.Join(gaps, ",")))
+	}
 }
